@@ -5,6 +5,7 @@ import (
 	"strconv"
 	"strings"
 	"sync"
+	"time"
 
 	"github.com/rogpeppe/go-internal/testscript"
 )
@@ -18,6 +19,8 @@ const (
 
 // SubResult is the outcome of one subtest (script).
 type SubResult struct {
+	Start   time.Time
+	End     time.Time
 	Name    string
 	Verdict string // pass | fail | skip | panic
 	Log     string
@@ -64,7 +67,9 @@ func (t *subT) Run(name string, f func(testscript.T)) {
 	t.r.mu.Unlock()
 	st := &subT{r: t.r, res: res}
 	body := func() {
+		res.Start = time.Now()
 		defer func() {
+			res.End = time.Now()
 			switch e := recover(); e {
 			case nil:
 				res.Verdict = "pass"
